@@ -786,6 +786,209 @@ def first_events(base, max_objs):
 # ------------------------------------------------------------------ spaces
 
 
+# ------------------------------------------------------------------ owner variants
+
+
+OWNER_VARIANTS = ("float64 coordinate columns assigned after construction", "int64 id/type/pid columns", "result of Rotate (columns replaced by a transform)", "result of Translate",
+                  "custom column names (SWCNames)", "read from SWC text", "branch tree", "sub tree obtained from a node", "fortran/strided columns")
+ACC = ("id", "type", "x", "y", "z", "r", "pid")
+
+
+def make_variant(p, variant, bank_k):
+    """A tree with parent table p whose STORAGE differs from the plain float32/int32 constructor form. Returns (tree, parent table of
+    the returned tree)."""
+    import io as _io
+
+    from swcgeom.core import BranchTree, Tree
+    from swcgeom.core.swc_utils import SWCNames
+
+    n = len(p)
+    xyz, _ = build.generic_geometry(n, bank_k)
+    r = [0.25 + 0.125 * i for i in range(n)]
+    types = [1] + [2 + i % 3 for i in range(1, n)]
+    cols = dict(id=np.arange(n, dtype=np.int32), pid=np.array(p, dtype=np.int32), type=np.array(types, dtype=np.int32),
+                x=np.array([q[0] for q in xyz], dtype=np.float32), y=np.array([q[1] for q in xyz], dtype=np.float32),
+                z=np.array([q[2] for q in xyz], dtype=np.float32), r=np.array(r, dtype=np.float32))
+    if variant == OWNER_VARIANTS[0]:
+        t = Tree(n, **cols)  # the constructor casts to float32; a caller that assigns columns afterwards keeps its own dtype
+        for k in "xyzr":
+            t.ndata[k] = cols[k].astype(np.float64)
+        return t, p
+    if variant == OWNER_VARIANTS[1]:
+        for k in ("id", "pid", "type"):
+            cols[k] = cols[k].astype(np.int64)
+        return Tree(n, **cols), p
+    if variant == OWNER_VARIANTS[2]:
+        from swcgeom.transforms import Rotate
+
+        return Rotate(np.array([0.0, 0.0, 1.0]), 0.5)(Tree(n, **cols)), p  # general-axis rotation: float64 columns on the pinned tree
+    if variant == OWNER_VARIANTS[3]:
+        from swcgeom.transforms import Translate
+
+        return Translate(1.0, -2.0, 0.5)(Tree(n, **cols)), p
+    if variant == OWNER_VARIANTS[4]:
+        nm = SWCNames(id="n", type="t", x="xx", y="yy", z="zz", r="radius", pid="parent")
+        ren = {"id": "n", "type": "t", "x": "xx", "y": "yy", "z": "zz", "r": "radius", "pid": "parent"}
+        return Tree(n, names=nm, **{ren[k]: v for k, v in cols.items()}, e=np.arange(n) * 1.5), p
+    if variant == OWNER_VARIANTS[5]:
+        if not ref.is_sorted(p):
+            return None, p
+        text = "# c\n" + "".join(f"{i + 1} {types[i]} {xyz[i][0]!r} {xyz[i][1]!r} {xyz[i][2]!r} {r[i]!r} {p[i] + 1 if p[i] != -1 else -1}\n" for i in range(n))
+        return Tree.from_swc(_io.StringIO(text)), p
+    if variant == OWNER_VARIANTS[6]:
+        if n < 2:
+            return None, p
+        bt = BranchTree.from_tree(Tree(n, **cols))
+        return bt, [int(v) for v in bt.pid().tolist()]
+    if variant == OWNER_VARIANTS[7]:
+        kids = ref.children(p)[0]
+        if not kids:
+            return None, p
+        sub = Tree(n, **cols).node(kids[0]).subtree()
+        return sub, [int(v) for v in sub.pid().tolist()]
+    if variant == OWNER_VARIANTS[8]:
+        big = np.zeros((n, 8), dtype=np.float32, order="F")
+        for j, k in enumerate("xyzr"):
+            big[:, 2 * j] = cols[k]
+            cols[k] = big[:, 2 * j]
+        return Tree(n, **cols), p
+    raise ValueError(variant)
+
+
+def _acc(o, k):
+    return [_num(v) for v in getattr(o, k)().tolist()]
+
+
+def check_owner_variants(case, R):
+    """Views over owners whose storage is unusual (dtype, layout, column names, produced by a transform / reader / decomposition):
+    every clause of the statement, through the named accessors only (no column-name assumptions)."""
+    p0, variant = list(case[0]), case[1]
+    R.state(p0, variant)
+    ok, got = R.impl(f"build:{variant}", make_variant, p0, variant, R.seed % 4)
+    if not ok:
+        return
+    t, p = got
+    if t is None:
+        R.trivial()
+        return
+    n = len(p)
+    kl = f"owner-variant:{variant}"
+    what = f"owner = {variant}, parent table {p}"
+    src = {k: _acc(t, k) for k in ACC}
+    R.check(src["pid"] == p and src["id"] == list(range(n)), "variant:topology", lambda: f"{what}: id {src['id']} pid {src['pid']}", f"{kl}:topology")
+
+    def node_row(h):
+        return {k: _num(getattr(h, k)) for k in ACC}
+
+    def rows(L):
+        return {k: [src[k][i] for i in L] for k in ACC}
+
+    def pathlike(v):
+        return {k: _acc(v, k) for k in ACC if k not in ("id", "pid")}
+
+    def same(got, L):
+        w = rows(L)
+        return all(got[k] == w[k] for k in got)
+
+    # nodes
+    for i in range(n):
+        for nm_, get in (("Tree[i]", lambda: t[i]), ("Tree.node(i)", lambda: t.node(i)), ("Tree[i-n]", lambda: t[i - n])):
+            okh, h = R.impl(nm_, get)
+            if okh:
+                R.check(node_row(h) == {k: src[k][i] for k in ACC}, "node:attributes", lambda: f"{what} {nm_} i={i}: {node_row(h)}", f"{kl}:node")
+    # paths, branches, segments
+    views = []
+    for nm_, fn in (("get_paths", t.get_paths), ("get_branches", t.get_branches), ("get_segments", t.get_segments)):
+        okv, vs = R.impl(nm_, fn)
+        if okv:
+            views += [(nm_, v) for v in vs]
+    okb, brs = R.impl("get_branches", t.get_branches)
+    if okb:
+        for b in brs:
+            oks, segs = R.impl("Branch.get_segments", b.get_segments)
+            if oks:
+                L = [int(i) for i in b.origin_id().tolist()]
+                pairs = [[int(i) for i in sg.origin_id().tolist()] for sg in segs]
+                R.check(pairs == [[a, c] for a, c in zip(L, L[1:])], "branch-segments", lambda: f"{what} branch {L}: segments {pairs}", f"{kl}:branch-segments")
+                views += [("Branch.get_segments", sg) for sg in segs]
+    segp = sorted(tuple(int(i) for i in sg.origin_id().tolist()) for nm_, sg in views if nm_ == "get_segments")
+    R.check(segp == sorted((p[c], c) for c in range(n) if p[c] != -1), "tree-segments", lambda: f"{what}: segments {segp}", f"{kl}:tree-segments")
+    for nm_, v in views:
+        L = [int(i) for i in v.origin_id().tolist()]
+        okr, got_ = R.impl(f"{nm_}:read", pathlike, v)
+        if okr:
+            R.check(same(got_, L), "view:attributes", lambda: f"{what} {nm_} over nodes {L}: {got_}", f"{kl}:view:{nm_}")
+        m = len(L)
+        for k in list(range(-m, m)):
+            okk, h = R.impl(f"{nm_}[k]", lambda: v[k])
+            if okk and hasattr(h, "x"):
+                i = L[k]
+                R.check((_num(h.x), _num(h.r), _num(h.type)) == (src["x"][i], src["r"][i], src["type"][i]), "view:index", lambda: f"{what} {nm_}{L}[{k}]", f"{kl}:view-index:{nm_}")
+    # writes through a node handle are visible in the owner and in every view over that node
+    VAL = {"x": 77.5, "y": -3.25, "z": 0.125, "r": 9.75, "type": 6}
+    for i in range(n):
+        for k, val in VAL.items():
+            old = src[k][i]
+            okw, _ = R.impl("Node.attr = v", lambda: setattr(t.node(i), k, val))
+            if not okw:
+                continue
+            now = _acc(t, k)
+            want = src[k][:i] + [val] + src[k][i + 1:]
+            R.check(now == want, "write:not-visible-in-owner", lambda: f"{what}: node({i}).{k} = {val}; owner's column {now}", f"{kl}:write-lost:{k}")
+            for nm_, v in views:
+                L = [int(j) for j in v.origin_id().tolist()]
+                if i in L:
+                    gv = _acc(v, k)
+                    R.check(gv == [want[j] for j in L], "write:not-visible-in-view", lambda: f"{what}: node({i}).{k} = {val}; {nm_}{L} reports {gv}", f"{kl}:write-not-in-view:{nm_}")
+            setattr(t.node(i), k, old)
+    R.check({k: _acc(t, k) for k in ACC} == src, "write:restore", lambda: f"{what}: writing the old values back did not restore the owner", f"{kl}:restore")
+    # detached copies and tree copies: equal content, fully independent
+    okc, c = R.impl("Tree.copy", t.copy)
+    if okc:
+        R.check({k: _acc(c, k) for k in ACC} == src, "copy:content", lambda: f"{what}: copy {[_acc(c, k) for k in ACC]}", f"{kl}:copy-content")
+        for k, val in VAL.items():
+            setattr(c.node(n - 1), k, val)
+        R.check({k: _acc(t, k) for k in ACC} == src, "copy:writes-reach-original", lambda: f"{what}: writing into the copy changed the original", f"{kl}:copy-not-independent")
+        csnap = {k: _acc(c, k) for k in ACC}
+        for k, val in VAL.items():
+            setattr(t.node(0), k, val)
+        R.check({k: _acc(c, k) for k in ACC} == csnap, "copy:follows-original", lambda: f"{what}: writing into the original changed the copy", f"{kl}:copy-not-independent")
+        for k in VAL:
+            setattr(t.node(0), k, src[k][0])
+    for nm_, v in views + [("node", t.node(i)) for i in range(n)]:
+        L = [int(i) for i in v.origin_id().tolist()] if nm_ != "node" else [int(v.id)]
+        okd, d = R.impl(f"{nm_}.detach", v.detach)
+        if not okd:
+            continue
+        rd = (lambda o: {k: _acc(o, k) for k in ("type", "x", "y", "z", "r")}) if nm_ != "node" else (lambda o: {k: [_num(getattr(o, k))] for k in ("type", "x", "y", "z", "r")})
+        okr, dg_ = R.impl(f"{nm_}.detach:read", rd, d)
+        if not okr:
+            continue
+        R.check(same(dg_, L), "detach:content", lambda: f"{what} {nm_}{L}.detach(): {dg_}", f"{kl}:detach-content:{nm_}")
+        for i in L:
+            for k, val in VAL.items():
+                setattr(t.node(i), k, val)
+        R.check(rd(d) == dg_, "detach:follows-original", lambda: f"{what} {nm_}{L}.detach() changed when the original was written to", f"{kl}:detach-not-independent:{nm_}")
+        for i in L:
+            for k in VAL:
+                setattr(t.node(i), k, src[k][i])
+        try:
+            if nm_ == "node":
+                for k, val in VAL.items():
+                    setattr(d, k, val)
+            else:
+                for k in ("x", "r"):
+                    getattr(d, k)()  # gathered copy; write through the detached object's own storage instead
+                for arr in d.attach.ndata.values():
+                    if arr.dtype.kind == "f":
+                        arr += 1
+        except Exception:  # noqa: BLE001 - writing into a detached object is not part of the statement's API surface
+            pass
+        R.check({k: _acc(t, k) for k in ACC} == src, "detach:writes-reach-original", lambda: f"{what}: writing into {nm_}{L}.detach() changed the tree", f"{kl}:detach-not-independent:{nm_}")
+    R.outcome(variant, n)
+
+
+
 def spaces(tier, seed):
     quick = tier == "quick"
     lt_hi = 5 if quick else 6
@@ -817,6 +1020,8 @@ def spaces(tier, seed):
     return [
         Space.of("query-edit-query", gen_edit, check_edit,
                  bounds={"LT_max_nodes": ed_hi, "edits": "every single re-parenting that keeps the tree well-formed", "how": list(build.EDIT_HOWS)}),
+        Space.of("owner-variants", lambda: ((p_, v) for m in range(1, (5 if quick else 6)) for p_ in S.labelled_trees(m) for v in OWNER_VARIANTS), check_owner_variants,
+                 bounds={"LT_max_nodes": 4 if quick else 5, "owners": list(OWNER_VARIANTS)}),
         Space.of("views-static", gen_static, check_static,
                  bounds={"LT_max_nodes": lt_hi, "int_index": "[-n-1, n] as int / np.int64 / np.int32", "slice_start_stop": "None, -n-1..n+1", "slice_steps": list(STEPS)}),
         Space.of("node-detach", gen_static, check_node_detach, bounds={"LT_max_nodes": lt_hi}),
